@@ -19,6 +19,13 @@ use crate::{HashMap, HashSet};
 
 /// Maximum recursion depth for the parser, shared between expression and statement parsing
 const MAX_RECURSION_DEPTH: usize = 40;
+/// Maximum depth of the AST of an expression. Operators, accessors and filters chained at the
+/// same level (`a + b + c`, `a.b.c`, `a | f | g`) are parsed in a loop rather than recursively but
+/// each link still nests the AST one level deeper, and the AST is walked recursively afterwards.
+/// Nested expressions add up to `MAX_RECURSION_DEPTH` on top of that.
+const MAX_EXPRESSION_DEPTH: usize = 100;
+/// An `elif` is an `if` nested in the previous else body: how many of them can be open at once
+const MAX_ELIF_DEPTH: usize = 100;
 /// We only allow that many dimensions in an array literal
 const MAX_DIMENSION_ARRAY: usize = 2;
 /// How many nesting of brackets can we have in an variable, eg `a[b[e]]` counts as 2
@@ -128,6 +135,10 @@ pub struct Parser<'a> {
     array_dimension: usize,
     // Current parser recursion depth
     recursion_depth: usize,
+    // Upper bound of the depth of the expression AST currently being built
+    expression_depth: usize,
+    // How many `elif` we are currently nested in
+    elif_depth: usize,
     // We limit the number of nesting for brackets in idents
     num_left_brackets: usize,
     blocks_seen: HashSet<String>,
@@ -146,6 +157,8 @@ impl<'a> Parser<'a> {
             current_span: Span::default(),
             body_contexts: Vec::new(),
             recursion_depth: 0,
+            expression_depth: 0,
+            elif_depth: 0,
             array_dimension: 0,
             num_left_brackets: 0,
             blocks_seen: HashSet::with_capacity(10),
@@ -320,6 +333,7 @@ impl<'a> Parser<'a> {
                         expect_token!(self, Token::Dot, ".")?;
                     }
                     let (attr, span) = expect_token!(self, Token::Ident(id) => id, "identifier")?;
+                    self.deepen_expression()?;
                     if ident == "loop" && self.is_in_loop() {
                         let new_name = match attr {
                             "index" => "__tera_loop_index",
@@ -356,6 +370,7 @@ impl<'a> Parser<'a> {
                 }
                 // Subscript
                 Some(Ok((Token::LeftBracket, _)) | Ok((Token::QuestionMarkLeftBracket, _))) => {
+                    self.deepen_expression()?;
                     expr = self.parse_subscript(expr)?;
                 }
                 // Function call after a chain
@@ -691,9 +706,24 @@ impl<'a> Parser<'a> {
                 &self.current_span,
             ));
         }
+        // The expression we are about to parse will be a child of the one being built, if any
+        let parent_depth = std::mem::take(&mut self.expression_depth);
         let res = self.parse_expr_bp(min_bp);
+        self.expression_depth = parent_depth.max(self.expression_depth + 1);
         self.recursion_depth -= 1;
         res
+    }
+
+    /// To be called every time a loop wraps the expression parsed so far in a new node
+    fn deepen_expression(&mut self) -> TeraResult<()> {
+        self.expression_depth += 1;
+        if self.expression_depth > MAX_EXPRESSION_DEPTH {
+            return Err(Error::syntax_error(
+                "The expression is too complex".to_string(),
+                &self.current_span,
+            ));
+        }
+        Ok(())
     }
 
     fn parse_expr_bp(&mut self, min_bp: u8) -> TeraResult<Expression> {
@@ -808,6 +838,7 @@ impl<'a> Parser<'a> {
                 Token::Ident("or") => BinaryOperator::Or,
                 Token::Ident("is") => BinaryOperator::Is,
                 Token::LeftBracket => {
+                    self.deepen_expression()?;
                     lhs = self.parse_subscript(lhs)?;
                     continue;
                 }
@@ -841,6 +872,7 @@ impl<'a> Parser<'a> {
 
             // Advance past the op
             self.next_or_error()?;
+            self.deepen_expression()?;
 
             // Whether we get `is not`
             if matches!(op, BinaryOperator::Is)
@@ -879,6 +911,7 @@ impl<'a> Parser<'a> {
                 }
             };
             if negated {
+                self.deepen_expression()?;
                 lhs = Expression::UnaryOperation(Spanned::new(
                     UnaryOperation {
                         op: UnaryOperator::Not,
@@ -1140,7 +1173,17 @@ impl<'a> Parser<'a> {
         let false_body = match &self.next {
             Some(Ok((Token::Ident("elif"), _))) => {
                 self.next_or_error()?;
-                vec![Node::If(self.parse_if()?)]
+                self.elif_depth += 1;
+                if self.elif_depth > MAX_ELIF_DEPTH {
+                    self.elif_depth -= 1;
+                    return Err(Error::syntax_error(
+                        "Too many `elif` branches".to_string(),
+                        &self.current_span,
+                    ));
+                }
+                let node = self.parse_if();
+                self.elif_depth -= 1;
+                vec![Node::If(node?)]
             }
             Some(Ok((Token::Ident("else"), _))) => {
                 self.next_or_error()?;
